@@ -75,6 +75,10 @@ def run(case, ctx, rng):
             ctx.notes['unspecified-48-bucket-gate'] += 1
             return
         ctx.eq('tlsh==model', got, want, **det)
+        if n % 3 == 0:
+            from vmon.core import mutable_arg
+            ht = TLSH(b, w, c)
+            mutable_arg(ctx, 'tlsh==model', (lambda buf: ht(buf, force)), d, want, one_object=True, **det)
         # the two-step forms of the same computation: update(data) then final with nothing more to add; final(data) alone
         def two_step(last):
             o = TLSH(b, w, c); o.update(d)
@@ -184,6 +188,10 @@ def run(case, ctx, rng):
         ctx.eq('nilsimsa==model', got, sh.nilsimsa(d, 53 if t is None else t), **det)
         if not is_exc(got):
             ctx.check('nilsimsa:length', isinstance(got, bytes) and len(got) == 32, len(got), 32, **det)
+        from vmon.core import mutable_arg
+        hn = Nilsimsa(t)
+        mutable_arg(ctx, 'nilsimsa==model', (lambda buf: hn(buf)), d, sh.nilsimsa(d, 53 if t is None else t), one_object=True, **det)
+        ctx.eq('nilsimsa==model', call(lambda: Nilsimsa(t)(list(d))), sh.nilsimsa(d, 53 if t is None else t), arg='a list of ints', **det)
     elif k == 'siblings':
         from vmon.core import siblings
         from crysp.nilsimsa import Nilsimsa
